@@ -276,7 +276,10 @@ func ExtractCRC(payload []byte) (uint32, error) {
 		return 0, gots.ErrPMTParse
 	}
 
-	end := PSIHeaderLen + sectionLength
+	end := int(PSIHeaderLen) + int(sectionLength)
+	if sectionLength < CrcLen || len(payload) < end {
+		return 0, gots.ErrPMTParse
+	}
 
 	// The CRC is the last 4-bytes of the PSI Table.
 	data := payload[end-4 : end]
